@@ -121,6 +121,10 @@ def judge_stream(data: bytes, cfg):
 
 
 def replay_case(case):
+    if case["kind"] == "parse" and "data_gen" in case:
+        g = case["data_gen"]
+        data = b"\xb5\x62" + bytes.fromhex(g["cid"]) + bytes.fromhex(g["len"]) + bytes(g["n"]) + bytes.fromhex(g["ck"])
+        return [(k.replace("|nonempty", "|oversize"), d) for k, d in judge_parse(data, case["mode"], case["validate"], case["pbf"])[1]]
     if case["kind"] == "parse":
         return judge_parse(bytes.fromhex(case["data"]), case["mode"], case["validate"], case["pbf"])[1]
     return judge_stream(bytes.fromhex(case["data"]), case["cfg"])[1]
@@ -181,6 +185,21 @@ def _eval_block(block, acc):
                         acc.outcomes[("bytes", len(data) >= 8, st)] += 1
                         for key, detail in out:
                             acc.violation(key, {"kind": "parse", "data": data.hex(), "mode": mode, "validate": va, "pbf": pbf}, detail)
+    elif kind == "Pbig":
+        # inputs longer than any frame can be: 65,535-byte payload boundary, all header shapes
+        for n in (65535, 65536, 65537, 70000, 131072):
+            for lenfield in (b"\x00\x00", b"\x01\x00", b"\xff\xff", (n & 0xFFFF).to_bytes(2, "little")):
+                for cid in (b"\x05\x01", b"\x0a\x04", b"\x00\x00"):
+                    body = cid + lenfield + bytes(n)
+                    for data in (b"\xb5\x62" + body + ref.fletcher8(body), b"\xb5\x62" + body + b"\x00\x00"):
+                        for mode in (0, 1):
+                            for va in (1, 0):
+                                st, out = judge_parse(data, mode, va, 1)
+                                acc.evaluations += 1
+                                acc.transitions += 1
+                                acc.outcomes[("big", va, st)] += 1
+                                for key, detail in out:
+                                    acc.violation(key.replace("|nonempty", "|oversize"), {"kind": "parse", "data_gen": {"n": n, "len": lenfield.hex(), "cid": cid.hex(), "ck": data[-2:].hex()}, "mode": mode, "validate": va, "pbf": 1}, detail)
     elif kind == "Pshort":
         for n in range(0, block[1]):
             for t in itertools.product(SIGMA_P, repeat=n):
@@ -254,6 +273,7 @@ def run_tier(tier, t0):
     blocks += [("B", cid.hex(), q) for cid in FS.known_clsids()]
     blocks.append(("C",))
     blocks.append(("Pshort", 2))
+    blocks.append(("Pbig",))
     blocks += [("P", list(p), LP) for p in itertools.product(range(8), repeat=2)]
     blocks += [("S", list(b), "full") for b in streams.byte_blocks(LS_full)]
     blocks += [("S", list(b), "cover") for b in streams.byte_blocks(LS_cover)]
@@ -265,7 +285,7 @@ def run_tier(tier, t0):
         PROP, tier, acc, t0, replay_case,
         rule=(
             f"parse: C01 spaces A (lengths {lengths}, fills {fills}), B, C with validate 1 and 0; all byte strings of length<={LP} over {[hex(x) for x in SIGMA_P]} "
-            f"x msgmode(4) x (validate, parsebitfield) in 3 combinations; every returned message inspected 9 ways. "
+            f"x msgmode(4) x (validate, parsebitfield) in 3 combinations; every returned message inspected 9 ways; inputs of 65,535..131,072 payload bytes with 4 length-field shapes. "
             f"stream: all byte strings of length<={LS_full} x 384 configurations and length<={LS_cover} x 6 covering configurations; token sequences of depth<={k} "
             "x 6 configurations; one stream per named class/ID with its frame at every length 0..nominal+16 x quitonerror(3) x msgmode(4) x parsebitfield(2). "
             "distinct_nontrivial = distinct (space, class or policy, verdict) classes"
